@@ -1,4 +1,5 @@
 import Rtsp.Model.Sdp.Str
+import Rtsp.Generated.Facts.Sdp
 /-
 SDP documents: the part of pion's `sdp.SessionDescription` that gortsplib reads and writes, pion's
 `Marshal` for exactly the fields `description.Session.Marshal` sets, and the tolerant line machine
@@ -182,14 +183,16 @@ def portOk (f : Str) : Bool :=
   match splitOn 47 f with
   | p :: rest =>
     (match parseInt64 p with
-      | some v => decide (0 ≤ v) && decide (v ≤ 65536)
+      | some v => decide (0 ≤ v) && decide (v ≤ (Rtsp.Facts.Sdp.portMax : Int))
       | none => false)
     && (match rest with
       | r :: _ => (parseInt64 r).isSome
       | [] => true)
   | [] => false
 
-/-- `unmarshalMediaDescription` -/
+/-- `unmarshalMediaDescription` (at least four fields: the pattern below) -/
+example : Rtsp.Facts.Sdp.minMediaFields = 4 := rfl
+
 def parseMediaLine (value : Str) : Option MediaD :=
   match fields value with
   | f0 :: f1 :: f2 :: f3 :: rest =>
